@@ -1,5 +1,7 @@
 """C09 - Metadata references always resolve."""
-from vlib import histories
+import json
+from vlib import histories, invariants, snapshot
+from vlib.snapshot import rows_of
 
 LEVEL = 'exploration'
 RULE = ('seeded histories weighted towards view/section/field/summary/display-formula/rule creation and every removal path '
@@ -7,8 +9,10 @@ RULE = ('seeded histories weighted towards view/section/field/summary/display-fo
         'successful bundle every metadata reference of the snapshot is resolved by an independent checker. A case = one '
         'bundle; non-trivial = emitted >=1 stored action on a _grist_* table and changed >=1 cell; distinct by (user-action '
         'kinds, stored-action shape).')
-ASSUMPTIONS = ['the generator never writes a dangling metadata reference itself, so a dangling one was produced by the engine']
-REQUIRED = {'C09.checked': {'quick': 20000, 'thorough': 300000}, 'bundles_ok': {'quick': 300, 'thorough': 5000}}
+ASSUMPTIONS = ['the generator never writes a dangling metadata reference itself, so a dangling one was produced by the engine',
+               'a bundle that shows the open finding regroup_loses_field_of_renamed_formula_column is reported under that key and '
+               'taken back with its own undo actions, so that later bundles are judged on consistent metadata']
+REQUIRED = {'C09.checked': {'quick': 20000, 'thorough': 200000}, 'bundles_ok': {'quick': 300, 'thorough': 2000}}
 
 WEIGHTS = {'add_records': 5, 'update_records': 4, 'remove_records': 2, 'add_view': 2, 'create_section': 3, 'create_summary': 5,
            'update_summary': 3, 'detach_summary': 1.5, 'remove_section': 2.5, 'remove_view': 1.5, 'remove_page': 1, 'remove_field': 1.5,
@@ -16,11 +20,121 @@ WEIGHTS = {'add_records': 5, 'update_records': 4, 'remove_records': 2, 'add_view
            'rename_column': 2, 'duplicate_table': 1.5, 'add_ref_column': 4, 'copy_from_column': 1, 'convert_from_column': 0.6,
            'add_filter': 1, 'add_reverse': 1.5, 'invalid': 1, 'remove_stale': 0.5, 'add_visible_column': 1.5, 'add_field': 3}
 
+KNOWN = 'regroup_loses_field_of_renamed_formula_column'
+
+
 def plan(tier, seed):
-  n, steps = (16, 45) if tier == 'quick' else (160, 80)
-  return [{'hseed': seed * 100003 + 9000 + i, 'steps': steps} for i in range(n)]
+  n, steps = (16, 45) if tier == 'quick' else (64, 80)
+  return [{'witness': 'regroup_renamed_formula_column'}] + \
+         [{'hseed': seed * 100003 + 9000 + i, 'steps': steps} for i in range(n)]
+
+
+def fields_of_renamed_formula_columns(S0, S1):
+  """
+  Mechanism of the open finding (DESIGN.md 3.6). When a summary section is moved to another summary
+  table (UpdateSummaryViewSection, or RemoveColumn of a group-by source column), a formula column whose
+  id is already taken in the new table by a column with a *different* formula is added there under a
+  new id (count -> count2); update_summary_section looks the section's fields up by the new id, finds
+  none, and leaves the field pointing at the column of the old table (which then belongs to another
+  table, or is removed with it, leaving colRef = 0).
+  Returns the set of field ids that match: before the bundle the field showed a formula column
+  (not 'group') of summary table A; after it its section belongs to another summary table B, and B
+  holds a column with the old column's formula under another id while the old id is taken in B by
+  a column with another formula.
+  """
+  C0 = rows_of(S0, '_grist_Tables_column')
+  C1 = rows_of(S1, '_grist_Tables_column')
+  T0 = rows_of(S0, '_grist_Tables')
+  T1 = rows_of(S1, '_grist_Tables')
+  F0 = rows_of(S0, '_grist_Views_section_field')
+  F1 = rows_of(S1, '_grist_Views_section_field')
+  S1s = rows_of(S1, '_grist_Views_section')
+  out = set()
+  for f, rec in F1.items():
+    if f not in F0 or rec['parentId'] not in S1s:
+      continue
+    c0 = C0.get(F0[f]['colRef'])
+    if not c0 or not c0['isFormula'] or c0['colId'] == 'group':
+      continue
+    a = c0['parentId']
+    b = S1s[rec['parentId']]['tableRef']
+    if a == b or a not in T0 or b not in T1 or not T0[a]['summarySourceTable'] or not T1[b]['summarySourceTable']:
+      continue
+    bcols = [c for c in C1.values() if c['parentId'] == b]
+    same_id_other_formula = any(c['colId'] == c0['colId'] and c['formula'] != c0['formula'] for c in bcols)
+    other_id_same_formula = any(c['colId'] != c0['colId'] and c['formula'] == c0['formula'] and c['isFormula'] for c in bcols)
+    if same_id_other_formula and other_id_same_formula:
+      out.add(f)
+  return out
+
+
+def witness_regroup_renamed_formula_column(acc):
+  """Open finding: T grouped by D shows 'count' with an edited formula; the summary of T by nothing
+  exists with the standard 'count'. Removing D moves the section to that table, the edited column
+  arrives there as count2, and the section's field for it is left behind with colRef = 0."""
+  from vlib.client import EngineProc
+  with EngineProc() as p:
+    p.init_doc()
+    p.apply([['AddTable', 'T', [{'id': 'A', 'type': 'Int', 'isFormula': False}, {'id': 'D', 'type': 'Choice', 'isFormula': False}]]])
+    p.apply([['BulkAddRecord', 'T', [None, None], {'A': [1, 2], 'D': ['a', 'b']}]])
+    p.apply([['CreateViewSection', 1, 1, 'record', [3], None]])
+    p.apply([['ModifyColumn', 'T_summary_D', 'count', {'formula': 'len($group) + 1'}]])
+    p.apply([['CreateViewSection', 1, 1, 'record', [], None]])
+    S0 = snapshot.take(p)
+    acc.count('witness_runs')
+    if invariants.c09(S0):
+      acc.violation('witness_setup', 'witness history: metadata inconsistent before the trigger: %s' % invariants.c09(S0)[:2], {})
+      return
+    p.apply([['RemoveColumn', 'T', 'D']])
+    S1 = snapshot.take(p)
+    det = []
+    msgs = invariants.c09(S1, det)
+    known = fields_of_renamed_formula_columns(S0, S1)
+    for (mech, msg), info in zip(msgs, det):
+      if mech in ('field.colRef', 'field.colRef.table') and info.get('field') in known:
+        acc.violation(KNOWN, 'witness: [RemoveColumn T D] with an edited count column in T_summary_D: %s' % msg, {})
+      else:
+        acc.violation(mech, 'witness history: %s' % msg, {})
+
+
+class MetaRefs(histories.Monitor):
+  MUTATES = True
+
+  def __init__(self):
+    self.stop = False
+
+  def after_bundle(self, h, ctx):
+    acc = h.acc
+    if ctx.reply is None or self.stop:
+      return
+    S1 = ctx.S1
+    det = []
+    msgs = invariants.c09(S1, det)
+    acc.count('C09.checked', sum(len(S1[t][0]) for t in S1 if t.startswith('_grist_')))
+    known = fields_of_renamed_formula_columns(ctx.S0, S1) if msgs else set()
+    hit = False
+    shown = 0
+    for (mech, msg), info in zip(msgs, det):
+      if mech in ('field.colRef', 'field.colRef.table') and info.get('field') in known:
+        mech = KNOWN
+        hit = True
+      elif shown >= 3:
+        continue
+      else:
+        shown += 1
+      h.violation(mech, '%s after bundle %s' % (msg, histories.action_kinds(ctx.bundle)), {'bundle': ctx.bundle})
+    acc.case(histories.nontrivial_hash(ctx), {'bundle': ctx.bundle} if histories.nontrivial_hash(ctx) else None)
+    if hit:
+      # Leave the state shaped by the listed defect: take the bundle back with its own undo actions.
+      acc.count('bundles_taken_back_open_finding')
+      h.apply([['ApplyUndoActions', json.loads(json.dumps(ctx.reply.undo))]], 'take-back')
+      if snapshot.diff(ctx.S0, h.snap(), maxn=1):
+        acc.count('histories_cut_short_open_finding')
+        self.stop = True
+
 
 def run_shard(spec, acc):
-  h = histories.History(acc, spec['hseed'], [histories.InvariantMonitor(['C09'])], spec['steps'], weights=WEIGHTS,
-                        flags={'bundle_multi': 0.35})
+  if spec.get('witness'):
+    return globals()['witness_' + spec['witness']](acc)
+  h = histories.History(acc, spec['hseed'], [MetaRefs()], spec['steps'], weights=WEIGHTS, flags={'bundle_multi': 0.35})
   h.run()
